@@ -27,6 +27,7 @@ var resourceOf = map[string]string{
 	"ConfigMap": "configmaps", "Secret": "secrets", "Service": "services", "ServiceAccount": "serviceaccounts", "Pod": "pods",
 	"Job": "jobs", "Widget": "widgets", "Gadget": "gadgets", "Namespace": "namespaces", "Deployment": "deployments",
 	"CustomResourceDefinition": "customresourcedefinitions",
+	"ClusterRole": "clusterroles",
 }
 
 // ParseManifest decodes a YAML stream with yaml.v3's stream decoder (not
